@@ -1,6 +1,7 @@
 """property -> verification runs (unit, active clause groups, mode, features) and what the property owns"""
 
 U1 = "u1_sched"
+U2 = "u2_sysdata"
 U3 = "u3_world"
 U4 = "u4_meta"
 STAR_OWNERS = ("C04",)   # the shared shape / safety clauses (`*`) belong to these; for other properties a failing `*` clause is "undecided"
@@ -26,6 +27,9 @@ PROPS = {
                 undecided_sentences=["multiplicity on the parallel path rests on the assumed contract of rayon (rule R11: each closure called exactly once)"]),
     "C12": dict(runs=[dict(unit=U1, groups=["tl"])], own_groups=["tl"],
                 undecided_sentences=["'on the thread that called dispatch, never on a pool worker' (thread identity) is not a contract over sequential code", "'after every other system has finished' in time: program order of inner.dispatch then the thread-local loop is proved, rayon's fork-join is trusted"]),
+    "C06": dict(runs=[dict(unit=U2, groups=["sd"], mode="P")], own_groups=["sd", "P"], owns_shared=True,
+                undecided_sentences=["'all of it is released when the value is dropped': Rust drop glue and atomic_refcell's Drop (trusted); the contract shows no impl stores a guard anywhere but in the returned value",
+                                     "derive macro: the generator (a proc-macro over all token streams) is out of reach; its *output* is verified for the sample family in units/u2_sysdata/derive_samples.rs (bounded: sampled programs)"]),
     "C07": dict(runs=[dict(unit=U1, groups=["bat"])], own_groups=["bat"],
                 undecided_sentences=["'no outside system ... ever overlaps the batch' in time (trusted execution discipline); inner thread-local systems are outside the union (known finding KF1, reported under C12)"]),
     "C18": dict(runs=[dict(unit=U1, groups=["tot"], mode="T"), dict(unit=U1, groups=["grd"], mode="P")], own_groups=["tot", "grd", "T", "P"], owns_shared="safety",
